@@ -24,42 +24,40 @@ Theorem C40_more_input_iff_incomplete : forall out inp r,
 Proof. intros. split; [apply more_iff_incomplete | apply incomplete_changes_nothing]. Qed.
 Print Assumptions C40_more_input_iff_incomplete.
 
-(* After ANY history of inputs, of any length, with any values: *e is the exception of the latest
-   input that failed visibly (or none yet). *)
-Theorem C40_star_e_latest : forall out inputs,
-  r_e (run_abstract out inputs initial) = latest_failure out inputs None.
-Proof. intros. apply star_e_is_latest_failure. Qed.
-Print Assumptions C40_star_e_latest.
-
-(* After any history WITHOUT failed inputs: *1 *2 *3 are the results of the latest three evaluated
-   inputs (None included), and with pairwise different non-None results no result is repeated. *)
-Theorem C40_history_vars_partial : forall out inputs, forallb unfailing inputs = true ->
+(* After ANY history of inputs -- any length, any values, failing and incomplete inputs interleaved
+   in any way, any output function: *1 *2 *3 are the results of the latest three inputs that were
+   evaluated to a value (None included), and *e is the exception of the latest input that failed
+   visibly (or none yet). *)
+Theorem C40_history_vars : forall out inputs,
   slots_are (run_abstract out inputs initial) (results inputs) /\
-  (NoDup (results inputs) -> ~ In VNone (results inputs) -> no_repeat (run_abstract out inputs initial)).
+  r_e (run_abstract out inputs initial) = latest_failure out inputs None.
+Proof. intros. split; [apply history_vars | apply star_e_is_latest_failure]. Qed.
+Print Assumptions C40_history_vars.
+
+(* A failed or incomplete input leaves *1 *2 *3 exactly as they were; hence, when the evaluated
+   inputs produced pairwise different non-None results, no result ever occupies two of them --
+   "a failed input never makes two of them repeat one input's result", for ALL histories. *)
+Theorem C40_no_repeat : forall out,
+  (forall inp r, evaluated inp = None ->
+     let r' := fst (step out inp r) in r_1 r' = r_1 r /\ r_2 r' = r_2 r /\ r_3 r' = r_3 r) /\
+  (forall inputs, NoDup (results inputs) -> ~ In VNone (results inputs) ->
+     no_repeat (run_abstract out inputs initial)).
 Proof.
-  intros out inputs H. split; [apply history_vars_without_failures; exact H|].
-  intros. apply no_repeat_without_failures; assumption.
+  intros out. split; [intros; apply failed_input_leaves_slots; assumption|].
+  intros. apply no_repeat_any_history; assumption.
 Qed.
-Print Assumptions C40_history_vars_partial.
+Print Assumptions C40_no_repeat.
 
-(* What the code does on ANY history: the slots hold the latest three SHIFTED values, and an input
-   shown as a syntax error or a run-time error shifts the stale last_value in again. *)
-Theorem C40_history_vars_actual : forall out inputs,
-  slots_are (run_abstract out inputs initial) (shift_log out inputs initial []).
-Proof. exact history_vars_actual. Qed.
-Print Assumptions C40_history_vars_actual.
+(* regression sessions on the GENERATED code ([regression_run], [regression_run2] in
+   State/ReplProofs.v): inputs `1`, `(/ 1 0)` -- which made *1 = *2 = 1 before hy commit 7e4d2e4 -- now
+   end with *1 = 1, *2 = *3 = None, *e = the ZeroDivisionError; an 8-input session mixing values, None,
+   lexer / macro-expansion / run-time errors and an incomplete line ends with *1 *2 *3 = 3, None, 2. *)
+Theorem C40_regressions : regression_run /\ regression_run2.
+Proof. exact (conj regression_on_generated_code regression2_on_generated_code). Qed.
+Print Assumptions C40_regressions.
 
-(* [witness_run] (State/ReplProofs.v): the generated code run on inputs `1`, `(/ 1 0)` ends with
-   *1 = *2 = VInt 1 and *e = the ZeroDivisionError.
-   Hence the full statement "a failed input never makes two of *1 *2 *3 repeat one input's result"
-   is REFUTED: inputs `1`, `(/ 1 0)`, run on the generated code, leave *1 = *2 = 1. *)
-Definition C40_full : Prop := no_repeat_full.
-Theorem C40_no_repeat_refuted : ~ C40_full /\ witness_run.
-Proof. exact (conj no_repeat_refuted witness_on_generated_code). Qed.
-Print Assumptions C40_no_repeat_refuted.
-
-(* [good_history_meets]: a 7-input history (values, None, incomplete lines) meets the hypotheses of the
-   positive theorems and ends with *1 *2 *3 = 4, 3, None *)
-Theorem C40_example : good_history_meets.
-Proof. exact good_history_ok. Qed.
+(* [mixed_history_meets]: an 8-input history, half of it failing, meets the hypotheses of C40_no_repeat
+   and ends with *1 *2 *3 = 4, 3, 2 *)
+Theorem C40_example : mixed_history_meets.
+Proof. exact mixed_history_ok. Qed.
 Print Assumptions C40_example.
